@@ -108,9 +108,13 @@ fn main() {
                 out.join(" | ")
             },
             "iter" => match build_operator_tree::<DefaultNumericTypes>(&unhex(f[1])) {
-                Ok(t) => format!("ids={:?} vars={:?} fns={:?} read={:?} write={:?} nodes={}",
+                Ok(mut t) => { let muts = format!(" ids_mut={:?} vars_mut={:?} fns_mut={:?} read_mut={:?} write_mut={:?}",
+                    t.iter_identifiers_mut().map(|s| s.clone()).collect::<Vec<_>>(), t.iter_variable_identifiers_mut().map(|s| s.clone()).collect::<Vec<_>>(),
+                    t.iter_function_identifiers_mut().map(|s| s.clone()).collect::<Vec<_>>(), t.iter_read_variable_identifiers_mut().map(|s| s.clone()).collect::<Vec<_>>(),
+                    t.iter_write_variable_identifiers_mut().map(|s| s.clone()).collect::<Vec<_>>());
+                  format!("ids={:?} vars={:?} fns={:?} read={:?} write={:?} nodes={}",
                     t.iter_identifiers().collect::<Vec<_>>(), t.iter_variable_identifiers().collect::<Vec<_>>(), t.iter_function_identifiers().collect::<Vec<_>>(),
-                    t.iter_read_variable_identifiers().collect::<Vec<_>>(), t.iter_write_variable_identifiers().collect::<Vec<_>>(), t.iter().count()),
+                    t.iter_read_variable_identifiers().collect::<Vec<_>>(), t.iter_write_variable_identifiers().collect::<Vec<_>>(), t.iter().count()) + &muts },
                 Err(e) => format!("{:?}", e),
             },
             _ => "?".to_string(),
